@@ -118,6 +118,17 @@ func (p *proxy) SyncPart(down clusterv1.ChunkedSyncService_SyncPartServer) error
 		return err
 	}
 	upDone := make(chan error, 1)
+	var swMu sync.Mutex
+	swallow := map[uint32]int{} // responses of chunks the proxy has already acknowledged on the receiver's behalf
+	var sendMu sync.Mutex
+	fakeAck := func(req *clusterv1.SyncPartRequest) error {
+		swMu.Lock()
+		swallow[req.ChunkIndex]++
+		swMu.Unlock()
+		sendMu.Lock()
+		defer sendMu.Unlock()
+		return down.Send(&clusterv1.SyncPartResponse{SessionId: req.SessionId, ChunkIndex: req.ChunkIndex, Status: clusterv1.SyncStatus_SYNC_STATUS_CHUNK_RECEIVED})
+	}
 	go func() { // receiver -> sender
 		for {
 			resp, rerr := up.Recv()
@@ -125,7 +136,19 @@ func (p *proxy) SyncPart(down clusterv1.ChunkedSyncService_SyncPartServer) error
 				upDone <- rerr
 				return
 			}
-			if serr := down.Send(resp); serr != nil {
+			swMu.Lock()
+			skip := resp.Status != clusterv1.SyncStatus_SYNC_STATUS_SYNC_COMPLETE && swallow[resp.ChunkIndex] > 0
+			if skip {
+				swallow[resp.ChunkIndex]--
+			}
+			swMu.Unlock()
+			if skip {
+				continue
+			}
+			sendMu.Lock()
+			serr := down.Send(resp)
+			sendMu.Unlock()
+			if serr != nil {
 				upDone <- serr
 				return
 			}
@@ -163,17 +186,29 @@ func (p *proxy) SyncPart(down clusterv1.ChunkedSyncService_SyncPartServer) error
 			case "flip":
 				req.ChunkData = append([]byte(nil), req.ChunkData...)
 				req.ChunkData[len(req.ChunkData)/2] ^= 0x20
-			case "drop":
+			case "drop": // the chunk is lost on the way; the sender believes it arrived
+				if aerr := fakeAck(req); aerr != nil {
+					return aerr
+				}
+				swMu.Lock()
+				swallow[req.ChunkIndex]-- // nothing will ever come back for it
+				swMu.Unlock()
 				continue
 			case "dup":
 				if serr := up.Send(req); serr != nil {
 					return serr
 				}
-			case "swap-near":
+			case "swap-near": // delivered after its successor; the sender is told it arrived so that it goes on
 				held, heldFor = req, 1
+				if aerr := fakeAck(req); aerr != nil {
+					return aerr
+				}
 				continue
 			case "swap-far":
 				held, heldFor = req, 14
+				if aerr := fakeAck(req); aerr != nil {
+					return aerr
+				}
 				continue
 			case "early-end":
 				up.Send(req)
@@ -292,7 +327,7 @@ func TestVerifC17Transfer(t *testing.T) {
 		nChunks := max(1, (total+int(chunk)-1)/int(chunk))
 		f := fault{kind: kinds[r.Intn(len(kinds))], at: r.Intn(nChunks)}
 		px.setPlan(f)
-		ctx, cancel := context.WithTimeout(context.Background(), 15*time.Second)
+		ctx, cancel := context.WithTimeout(context.Background(), 6*time.Second)
 		res, serr := cc.SyncStreamingParts(ctx, mkParts(parts))
 		cancel()
 		px.mu.Lock()
@@ -312,7 +347,7 @@ func TestVerifC17Transfer(t *testing.T) {
 				got, inst := rec.installed[sp.id]
 				if !inst {
 					if mustAll {
-						s.Violation("c17:transfer:reported-success-but-part-not-installed", d(map[string]any{"stage": stage, "part": sp.id}))
+						s.Violation("c17:transfer:reported-success-but-part-not-installed:"+f.kind, d(map[string]any{"stage": stage, "part": sp.id}))
 					}
 					continue
 				}
@@ -329,7 +364,7 @@ func TestVerifC17Transfer(t *testing.T) {
 				}
 				sort.Strings(diffs)
 				if len(diffs) > 0 {
-					s.Violation("c17:transfer:installed-part-differs-from-the-sender:"+f.kind, d(map[string]any{"stage": stage, "part": sp.id, "differences": diffs}))
+					s.Violation("c17:transfer:installed-part-differs-from-the-sender:"+map[bool]string{true: f.kind, false: "none"}[applied], d(map[string]any{"stage": stage, "part": sp.id, "differences": diffs}))
 				}
 			}
 		}
@@ -344,7 +379,7 @@ func TestVerifC17Transfer(t *testing.T) {
 			}
 			rec.mu.Unlock()
 			cc2 := dial(chunk)
-			ctx2, cancel2 := context.WithTimeout(context.Background(), 15*time.Second)
+			ctx2, cancel2 := context.WithTimeout(context.Background(), 6*time.Second)
 			res2, err2 := cc2.SyncStreamingParts(ctx2, mkParts(parts))
 			cancel2()
 			cc2.Close()
